@@ -21,8 +21,9 @@ LEVEL_NOTE = ("Trusted: the regular-mode result as the reference (its own agreem
 TECHNIQUE = "self-differential execution (comptime vs regular compilation of one body) with a per-statement stream monitor"
 RULE = ("bodies of 10-16 result statements over traced int/float/bool parameters and Python constants: "
         "binary ops + - * // % ** << >> & | ^, comparisons, unary - ~, int()/float()/len(), tuple/"
-        "array/struct construction and projection, calls to @guppy helpers (pure, and one mutating a "
-        "borrowed array). distinct = (operator, operand-position class) cells")
+        "array/struct construction and projection, calls to @guppy helpers (pure, one mutating a "
+        "borrowed array parameter, and ones mutating arrays / structs / tuples built inside the body "
+        "from constants and traced values, lent repeatedly). distinct = (operator, operand-position class) cells")
 FLOORS = {"statements_compared": 150, "programs_emulated": 10}
 
 HELPERS = '''from guppylang import guppy
@@ -42,8 +43,25 @@ def bump(xs: array[int, 3], k: int) -> None:
     xs[1] = xs[1] + k
 
 @guppy
+def bump0(xs: array[int, 3], k: int) -> None:
+    xs[0] = xs[0] + k
+
+@guppy
 def fsum(a: float, b: float) -> float:
     return a + b
+
+@guppy.struct
+class S:
+    xs: array[int, 3]
+    k: int
+
+@guppy
+def bump_s(s: S) -> None:
+    s.xs[0] = s.xs[0] + s.k
+
+@guppy
+def bump_t(t: tuple[array[int, 3], int]) -> None:
+    t[0][2] = t[0][2] + t[1]
 
 '''
 BINOPS = ["+", "-", "*", "//", "%", "**", "<<", ">>", "&", "|", "^"]
@@ -96,7 +114,33 @@ def gen_stmt(rng, k):
         v = rng.choice(['result("r{k}", add3(x, y, 5))', 'result("r{k}", add3(1, x, y))',
                         'result("r{k}", fsum(f, 0.25))', 'result("r{k}", add3(x, add3(y, 1, 2), 3))'])
         return v.replace("{k}", str(k)), "call:pure"
-    return f'bump(xs, x)\n    result("r{k}", xs)', "call:borrow-mutate"
+    if c < 0.975:
+        return f'bump(xs, x)\n    result("r{k}", xs)', "call:borrow-mutate"
+    # containers built inside the body (Python constants / mixed with traced values in comptime
+    # mode) lent to a mutating callee more than once, then read.  Traced slots are fresh
+    # temporaries used nowhere else, one per slot: GuppyObjects are references in comptime mode, so
+    # a traced value that sits in a lent list *and* is referenced elsewhere is updated by the
+    # callee's write-back (known finding, probed by the dedicated `aliased` cell below, whose
+    # temporaries are private to it so that nothing else in the body can be affected).
+    if c < 0.993:
+        pre, e = [], []
+        for j in range(4):
+            if rng.random() < 0.5:
+                e.append(str(rng.randint(1, 9)))
+            else:
+                pre.append(f"u{k}_{j} = {rng.choice(['x', 'y'])} + {rng.randint(0, 3)}")
+                e.append(f"u{k}_{j}")
+        pre_s = "".join(p_ + "\n    " for p_ in pre)
+        v = rng.choice([
+            f'l{k} = array({e[0]}, {e[1]}, {e[2]})\n    bump(l{k}, {e[3]})\n    bump(l{k}, 2)\n    result("r{k}", l{k})',
+            f'l{k} = array({e[0]}, {e[1]}, {e[2]})\n    bump(l{k}, 1)\n    result("r{k}", l{k}[1] + l{k}[0])',
+            f's{k} = S(array({e[0]}, {e[1]}, {e[2]}), {e[3]})\n    bump_s(s{k})\n    bump_s(s{k})\n    result("r{k}", s{k}.xs)',
+            f's{k} = S(array({e[0]}, {e[1]}, {e[2]}), {e[3]})\n    bump_s(s{k})\n    result("r{k}", s{k}.xs[0] + s{k}.k)',
+            f't{k} = (array({e[0]}, {e[1]}, {e[2]}), {e[3]})\n    bump_t(t{k})\n    bump_t(t{k})\n    result("r{k}", t{k}[0])',
+        ])
+        return pre_s + v, "call:borrow-mutate-local-" + v[0]
+    v = (f'u{k} = x + 1\n    l{k} = array(u{k}, 4, 5)\n    bump0(l{k}, y)\n    result("r{k}", u{k})')
+    return v, "call:borrow-mutate-local-aliased"
 
 
 def build(rng):
